@@ -1892,6 +1892,9 @@ class unyt_array(np.ndarray):
             else:
                 out = out[0]
                 if out.dtype.kind in ("u", "i"):
+                    if not out.flags.writeable:
+                        # refuse before the integer buffer is retyped
+                        raise ValueError("output array is read-only")
                     new_dtype = "f" + str(out.dtype.itemsize)
                     float_values = out.astype(new_dtype)
                     out.dtype = new_dtype
